@@ -2,11 +2,17 @@ package main
 
 import (
 	"fmt"
+	"os"
+	"os/exec"
+	"path/filepath"
+	"regexp"
 	"strings"
 
 	. "verif/internal/proto"
 	zr "verif/internal/znref"
 )
+
+var reSiteLine = regexp.MustCompile(`:[0-9]+ `)
 
 func init() { register("C11", "exploration", checkC11) }
 
@@ -246,6 +252,33 @@ func checkC11(c *Ctx) {
 				c.Violation("repeat:http-headers:x", fmt.Sprintf("the same HTTP request served %d times produced %d distinct responses (entry file returns 当前请求之头部 and 查询参数): %s", sum.Requests, sum.Distinct, clip(strings.Join(sum.Samples, " ; "), 600)),
 					map[string]interface{}{"scenario": "srvharness -mode headers -n " + fmt.Sprint(n)})
 			}
+		}
+	}
+	// aiming aid (not a verdict): the range-over-map sites of the working tree, against the list
+	// that was reviewed when the corpus was written (c11_sites.txt: file, function, operand)
+	if bin, err := buildTool(c, "./tools/maprange", "maprange", false); err == nil {
+		cmd := exec.Command(bin, repoRoot(), "pkg/exec", "pkg/value", "pkg/runtime", "pkg/common", "pkg/server", "pkg/syntax", "pkg/syntax/zh", "pkg/io", "stdlib/json", "stdlib/file")
+		cmd.Env = goEnv()
+		cmd.Dir = repoRoot()
+		if out, err := cmd.Output(); err == nil {
+			reviewed := map[string]bool{}
+			if data, err := os.ReadFile(filepath.Join(c.Root, "c11_sites.txt")); err == nil {
+				for _, l := range strings.Split(strings.TrimSpace(string(data)), "\n") {
+					reviewed[l] = true
+				}
+			}
+			sites, fresh := []string{}, []string{}
+			for _, l := range strings.Split(strings.TrimSpace(string(out)), "\n") {
+				if l == "" {
+					continue
+				}
+				sites = append(sites, l)
+				if k := reSiteLine.ReplaceAllString(l, " "); !reviewed[k] {
+					fresh = append(fresh, l)
+				}
+			}
+			c.Extra("map_range_sites", sites)
+			c.Extra("map_range_sites_not_reviewed", fresh)
 		}
 	}
 	c.Extra("canary_min_distinct_map_orders_seen", minCanary)
